@@ -60,6 +60,13 @@ impl Message {
     pub fn is_binary(&self) -> (r: bool) ensures r == (self.data() && !self.text()) { unimplemented!() }
     #[verifier::external_body]
     pub fn is_text(&self) -> (r: bool) ensures r == (self.data() && self.text()) { unimplemented!() }
+    /// control messages carry no relayed data
+    #[verifier::external_body]
+    pub fn is_close(&self) -> (r: bool) ensures r ==> !self.data() { unimplemented!() }
+    #[verifier::external_body]
+    pub fn is_ping(&self) -> (r: bool) ensures r ==> !self.data() { unimplemented!() }
+    #[verifier::external_body]
+    pub fn is_pong(&self) -> (r: bool) ensures r ==> !self.data() { unimplemented!() }
     #[verifier::external_body]
     pub fn as_payload(&self) -> (r: &Payload) ensures r@ == self.bytes() { unimplemented!() }
     #[verifier::external_body]
